@@ -42,6 +42,44 @@ class Src:
             else '%s%s' % (self.root[1] if self.root else '?', v)
 
 
+_PROG = [None]
+_CUR_TU = [None]
+
+
+def passthrough_param(tu, call):
+    """Index of the argument a call hands back unchanged: the callee is a repository function
+    whose whole body is `return <casts>(parameter);` (a named conversion such as
+    `int64_t type_code(E e) { return static_cast<int64_t>(e); }`).  None otherwise."""
+    prog = _PROG[0]
+    if prog is None or tu is None or call.get('kind') != 'CallExpr':
+        return None
+    try:
+        d, qn, virt, recv = prog.resolve_callee(tu, call)
+    except Exception:
+        return None
+    if d is None or virt:
+        return None
+    defs = [f for f in prog.definitions_for(tu, d, qn) if f.body is not None and not f.is_pattern]
+    if len(defs) != 1 or not prog.in_repo(defs[0].file):
+        return None
+    f = defs[0]
+    st = [x for x in children(f.body)]
+    if len(st) != 1 or st[0].get('kind') != 'ReturnStmt' or not children(st[0]):
+        return None
+    e = strip(children(st[0])[0])
+    while e.get('kind') in ('CXXStaticCastExpr', 'CStyleCastExpr', 'CXXFunctionalCastExpr', 'ParenExpr',
+                            'ExprWithCleanups', 'MaterializeTemporaryExpr', 'CXXBindTemporaryExpr') \
+            and len(children(e)) == 1:
+        e = strip(children(e)[0])
+    if e.get('kind') != 'DeclRefExpr':
+        return None
+    rid = (e.get('referencedDecl') or {}).get('id')
+    for i, prm in enumerate(f.params):
+        if prm.get('id') == rid:
+            return i
+    return None
+
+
 def describe(node):
     """Source descriptor of an expression (see module doc)."""
     via = []
@@ -106,6 +144,12 @@ def describe(node):
             if nm == 'operator()' and args:
                 return Src(('call', 'functor()'), '', via, node)
         real = [a for a in args if a.get('kind') != 'CXXDefaultArgExpr']
+        if k == 'CallExpr':
+            # a named conversion that returns its argument (cast): the argument itself, constants included
+            pi = passthrough_param(_CUR_TU[0], n)
+            if pi is not None and pi < len(args):
+                b = describe(args[pi])
+                return Src(b.root, b.path, b.via + [nm] + via, node, const=b.const)
         if len(real) == 1:
             b = describe(real[0])
             return Src(b.root, b.path, b.via + [nm] + via, node)
@@ -145,6 +189,7 @@ class SiteMap:
         self.text = text
         self.loc = locstr(site.node)
         self.func = site.func
+        _CUR_TU[0] = getattr(site, 'tu', None) or getattr(site.func, 'tu', None)
         self.binds = [describe(b) for b in site.binds]
         self.problems = []
         self.col_src = []        # [(column, Src, role)] for '?' in order
@@ -274,6 +319,7 @@ def install_program(prog):
         return prog.records.get(q) if q else None
     global _REC_LOOKUP
     _REC_LOOKUP = look
+    _PROG[0] = prog
 
 
 def hole_values(prog, cg, func):
